@@ -1178,7 +1178,13 @@ def array_impl(array, dtype=None):
                     "\n    ".join(compute_shape),
                     "\n    ".join(ensure_shape),
                     ", ".join(specify_shape),
-                    "numpy.{0}".format(inner_dtype) if dtype is None else "dtype",
+                    (
+                        "numpy.bool_"
+                        if isinstance(inner_dtype, numba.types.Boolean)
+                        else "numpy.{0}".format(inner_dtype)
+                    )
+                    if dtype is None
+                    else "dtype",
                     "\n    ".join(fill_array),
                 ),
                 "array_impl",
